@@ -2,8 +2,10 @@ SPECIFICATION Spec
 CONSTANTS
   MaxLines = 5
   Tokens <- AllTokens
+  Design = "scalar"
 INVARIANT C06Framing
 INVARIANT Total
 INVARIANT SliceSane
+INVARIANT OwnBlock
 INVARIANT Emit
 CHECK_DEADLOCK FALSE
